@@ -413,6 +413,10 @@ func ReadWeatherCSV(VWDAT string, startyear int, g *GlobalVarsMain, s *WeatherDa
 			T = d.datetime.YearDay()
 			yrz = 1
 		} else if d.datetime.Day() == 1 && d.datetime.Month() == time.January {
+			// the previous year has to be complete: its last record is the 31st of December
+			if s.MaxYearDays[yrz-1] != time.Date(d.datetime.Year()-1, time.December, 31, 0, 0, 0, 0, time.UTC).YearDay() {
+				return fmt.Errorf("%s Failed to parse file: %s, error: missing days", g.LOGID, VWDAT)
+			}
 			T = 1
 			yrz = yrz + 1
 		}
@@ -551,6 +555,10 @@ func ReadWeatherCZ(VWDAT string, startyear int, g *GlobalVarsMain, s *WeatherDat
 			T = d.datetime.YearDay()
 			yrz = 1
 		} else if d.datetime.Day() == 1 && d.datetime.Month() == time.January {
+			// the previous year has to be complete: its last record is the 31st of December
+			if s.MaxYearDays[yrz-1] != time.Date(d.datetime.Year()-1, time.December, 31, 0, 0, 0, 0, time.UTC).YearDay() {
+				return fmt.Errorf("%s Failed to parse file: %s, error: missing days", g.LOGID, VWDAT)
+			}
 			T = 1
 			yrz = yrz + 1
 		}
